@@ -106,5 +106,9 @@ func (c CoefficientGetter) GetVectorCoefficient(pol polynomial.PolynomialVector,
 
 // GetSingleCoefficient should return the k-th coefficient of Polynomial as the type uint64.
 func (c CoefficientGetter) GetSingleCoefficient(pol polynomial.Polynomial, k int) (value uint64) {
+	// a nil coefficient is an absent (zero) coefficient
+	if pol.Coeffs[k] == nil {
+		return 0
+	}
 	return pol.Coeffs[k].Uint64()
 }
